@@ -349,3 +349,16 @@ def expr_text_full(e):
     if t == 'ar':
         return '(' + expr_text_full(e[2]) + ' ' + AR_TXT[e[1]] + ' ' + expr_text_full(e[3]) + ')'
     raise TypeError(repr(e))
+
+
+def print_case_sexp(mode, filt, stages, lines):
+    """mode: 'logfmt' | ('format', text) | ('legacy', None) | ('legacy', (width, height))"""
+    if mode == 'logfmt':
+        m = Sym('logfmt')
+    elif mode[0] == 'format':
+        m = [Sym('format'), mode[1]]
+    elif mode[1] is None:
+        m = [Sym('legacy'), Sym('none')]
+    else:
+        m = [Sym('legacy'), mode[1][0], mode[1][1]]
+    return dumps([Sym('print'), m, filter_sexp(filt), [stage_sexp(s) for s in stages], list(lines)])
